@@ -180,6 +180,14 @@ Section Model.
         end
     end.
 
+  (* the period / mode_no GETTERS return the stored array / list itself, so a caller can edit it in place before
+     assigning it back (gen.period *= c;  m = gen.mode_no; m[0] = 8; gen.mode_no = m): such an edit changes the
+     stored value and nothing else *)
+  Definition edit_period (st : fstate) (p : list T) : fstate :=
+    mkFS (f_model st) (Some p) (f_mode_no st) (f_dk st) (f_modes st).
+  Definition edit_mode_no (st : fstate) (mn : list Z) : fstate :=
+    mkFS (f_model st) (f_period st) (Some mn) (f_dk st) (f_modes st).
+
   (* Fourier(model, period, mode_no, seed) *)
   Definition init (m : cmodel) (period : list T) (mode_no : list Z) : fstate * outcome :=
     step fs_empty (mkUpd (Some m) true (Some period) (Some mode_no)).
